@@ -49,6 +49,9 @@ type startEvent struct {
 	// running is set once the node's goroutine drains mch; until then nobody
 	// listens and events are dropped instead of piling up in the inbox
 	running atomic.Bool
+	// gone is closed when the node's goroutine ends: a sender that found it
+	// running a moment ago is not left waiting at a full inbox
+	gone chan struct{}
 }
 
 func newStartEvent(wr *wiring, element *schema.StartEvent, idGenerator id.IGenerator) (evt *startEvent, err error) {
@@ -69,6 +72,7 @@ func newStartEvent(wr *wiring, element *schema.StartEvent, idGenerator id.IGener
 		element:     element,
 		mch:         make(chan imessage, len(wr.incoming)*2+1),
 		activated:   atomic.Bool{},
+		gone:        make(chan struct{}),
 		idGenerator: idGenerator,
 		satisfier:   logic.NewCatchEventSatisfier(element, wr.eventDefinitionInstanceBuilder),
 	}
@@ -84,6 +88,7 @@ func (evt *startEvent) run(ctx context.Context, sender tracing.ISenderHandle) {
 	// nobody drains the inbox any more: events are dropped instead of blocking
 	// their sender
 	defer evt.running.Store(false)
+	defer close(evt.gone)
 
 	for {
 		select {
@@ -124,7 +129,11 @@ func (evt *startEvent) ConsumeEvent(ev event.IEvent) (result event.ConsumptionRe
 		result = event.Consumed
 		return
 	}
-	evt.mch <- eventMessage{event: ev}
+	select {
+	case evt.mch <- eventMessage{event: ev}:
+	case <-evt.gone:
+		// the node ended with the instance in the meantime
+	}
 	result = event.Consumed
 	return
 }
